@@ -3,6 +3,7 @@ package merge
 import (
 	"fmt"
 	"math/rand"
+	"strings"
 )
 
 // Item names one ownable item of a container (kind + key for the keyed families).
@@ -363,7 +364,8 @@ func Systematic() []sysCase {
 		{"stop", "update", "ctr0"},
 	}
 	shapes := []string{"adjacent", "apart", "disjoint", "single-prepopulated", "rm-then-set", "middle-lone-rm", "ignored",
-		"same-value", "same-as-original", "multi-removal", "multi-removal-reset"}
+		"same-value", "same-as-original", "multi-removal", "multi-removal-reset",
+		"noop-then-rm", "noop-then-rmset", "noop-reset-then-rmset"}
 	for _, it := range AllItems() {
 		for _, p := range paths {
 			if p.path == "update" && !IsResource(it.Kind) {
@@ -378,6 +380,9 @@ func Systematic() []sysCase {
 					continue
 				}
 				if shape == "ignored" && p.path != "update" {
+					continue
+				}
+				if strings.HasPrefix(shape, "noop-") && !(p.path == "adjust" && Removable[it.Kind]) {
 					continue
 				}
 				for first := 0; first < 2; first++ { // position of the first writer in the chain
@@ -447,6 +452,29 @@ func Systematic() []sysCase {
 						setOn(&rsp[a], p.path, p.target, it, 7, 0, false)
 						setOn(&rsp[a+1], p.path, p.target, it, a+1, 1, false)
 						primeOriginal(&in, p.path, p.target, it, 7, 0)
+					case "noop-then-rm":
+						// a plugin sets the item to the value the original container already
+						// carries (a no-op for the container, but a claim); a later plugin removes
+						// it, a third sets another value
+						primeOriginal(&in, p.path, p.target, it, 7, 0)
+						setOn(&rsp[a], p.path, p.target, it, 7, 0, false)
+						rsp[a+1].Adjust = NewAdjust()
+						RemoveAdj(rsp[a+1].Adjust, it, true)
+						setOn(&rsp[a+3], p.path, p.target, it, a+3, 1, false)
+					case "noop-then-rmset":
+						// … or removes it and sets another value in one response
+						primeOriginal(&in, p.path, p.target, it, 7, 0)
+						setOn(&rsp[a], p.path, p.target, it, 7, 0, false)
+						setOn(&rsp[a+2], p.path, p.target, it, a+2, 1, false)
+						RemoveAdj(rsp[a+2].Adjust, it, true)
+					case "noop-reset-then-rmset":
+						// the second plugin removes and re-sets the very value the first one set
+						// (what it is shown already carries it); a third replaces it properly
+						setOn(&rsp[a], p.path, p.target, it, 7, 0, false)
+						setOn(&rsp[a+1], p.path, p.target, it, 7, 0, false)
+						RemoveAdj(rsp[a+1].Adjust, it, true)
+						setOn(&rsp[a+3], p.path, p.target, it, a+3, 1, false)
+						RemoveAdj(rsp[a+3].Adjust, it, true)
 					case "ignored":
 						setOn(&rsp[a], p.path, p.target, it, a, 0, false)
 						// the later plugin's update conflicts but is marked ignore-failure; it also
